@@ -12,8 +12,10 @@ Record inv := mkinv {
   v_sopts : list str; v_sfile : option str;      (* -s/--sample ..., -S/--samples-file content *)
   v_iopts : list str; v_ifile : option str;      (* -i/--id ...,     -I/--ids-file content *)
   v_exit : Z;                                    (* exit code reported by click *)
-  v_got : option (option (list str) * option (list str))
+  v_got : option (option (list str) * option (list str));
      (* (samples, ids) the entry point was called with; None: it was not called *)
+  v_kinds : Z * Z
+     (* Python type of the two collections: 0 None, 1 set, 2 tuple, 3 anything else *)
 }.
 
 Record rcase := mkr {
@@ -32,9 +34,15 @@ Definition got_eqb (cmd : Z) (a b : option (list str) * option (list str)) : boo
 Definition model_inv (v : inv) : res (option (list str) * option (list str)) :=
   front_end false (v_sopts v) (v_sfile v) (v_iopts v) (v_ifile v) (fun s i => Ok (s, i)).
 
+(* samples are handed over as a set, ids as a set (transform, simphenotype) or a tuple (ld) *)
+Definition kind_of (tuple : bool) (c : option (list str)) : Z :=
+  match c with None => 0 | Some _ => if tuple then 2 else 1 end.
+
 Definition agree_inv (cmd : Z) (v : inv) : bool :=
   match model_inv v, v_got v with
   | Ok m, Some g => got_eqb cmd m g && (v_exit v =? 0)
+                    && (fst (v_kinds v) =? kind_of false (fst m))
+                    && (snd (v_kinds v) =? kind_of (cmd =? 2) (snd m))
   | Err k, None => v_exit v =? exit_code (@Err unit k)
   | _, _ => false
   end.
